@@ -264,9 +264,9 @@ func levelField(p []byte) (string, bool) {
 }
 
 type c15Handler struct {
-	base   bool
-	prefix []string // open groups
-	added  []kv     // leaf key -> value of attrs added by WithAttrs (with prefix at the time)
+	base      bool
+	prefix    []string // open groups
+	added     []kv     // leaf key -> value of attrs added by WithAttrs (with prefix at the time)
 	addedKeys []string
 }
 
